@@ -2,7 +2,7 @@ import BarterModel.Driver.Common
 import BarterModel.Model.Orders
 /-!
 Line-protocol driver for C01. Ops:
-  `init n` | `init n x` | `open i c q p` | `cancel i c` | `snap i c q p K a b d` | `resp i c ok|err` | `resp i c err k`
+  `init n` | `init n x` | `init n x b` (b = 1: the account snapshots of the case carry balances too) | `open i c q p` | `cancel i c` | `snap i c q p K a b d` | `resp i c ok|err` | `resp i c err k`
   | `full (i c q p K a b d)*` | `empty i*` | `attr side kind tif strategy cancelid`
 state encoding `K a b d`: `F 0 0 0` in-flight echo, `O id t filled` open, `C0 0 0 0` / `C1 id t filled`
 hand-built cancel-in-flight marker, `X kind 0 0` inactive (kind 0 cancelled 1 fully-filled 2 failed 3 expired).
@@ -135,6 +135,14 @@ def model : Drv Engine where
       match n.toNat?, x.toNat? with
       | some n, some x =>
         if 1 ≤ x && x ≤ 5 then let e' : Engine := List.replicate n []; (e', obs e') else (e, ["bad-op"])
+      | _, _ => (e, ["bad-op"])
+    -- `init n x b`: with b = 1 every account snapshot of the case (`full` / `empty`) carries balances next to
+    -- the order reports; balances are no input of the order tracking
+    | ["init", n, x, b] =>
+      match n.toNat?, x.toNat? with
+      | some n, some x =>
+        if 1 ≤ x && x ≤ 5 && (b == "0" || b == "1") then let e' : Engine := List.replicate n []; (e', obs e')
+        else (e, ["bad-op"])
       | _, _ => (e, ["bad-op"])
     | "attr" :: rest => if attrOk rest then (e, obs e) else (e, ["bad-op"])
     | "empty" :: rest =>
@@ -275,6 +283,14 @@ def spec : Drv SpecSt where
       match n.toNat?, x.toNat? with
       | some n, some x =>
         if 1 ≤ x && x ≤ 5 then
+          let s' : SpecSt := ⟨List.replicate n [], List.replicate n [], false⟩; (s', specObs s')
+        else (s, ["bad-op"])
+      | _, _ => (s, ["bad-op"])
+    -- balances inside an account snapshot are not reports about any order: every clause holds whatever they are
+    | ["init", n, x, b] =>
+      match n.toNat?, x.toNat? with
+      | some n, some x =>
+        if 1 ≤ x && x ≤ 5 && (b == "0" || b == "1") then
           let s' : SpecSt := ⟨List.replicate n [], List.replicate n [], false⟩; (s', specObs s')
         else (s, ["bad-op"])
       | _, _ => (s, ["bad-op"])
